@@ -9,7 +9,7 @@ From Coq Require Import List NArith.
 Import ListNotations.
 Local Open Scope N_scope.
 
-Definition sum (g : list N) : N := fold_right N.add 0 g.
+Definition total (g : list N) : N := fold_right N.add 0 g.
 
 (* R holds between every two neighbours of the list *)
 Fixpoint adjacent {A} (R : A -> A -> Prop) (l : list A) : Prop :=
@@ -21,15 +21,15 @@ Fixpoint adjacent {A} (R : A -> A -> Prop) (l : list A) : Prop :=
 Definition layout (l : list N) (gs : list (list N)) : Prop :=
   concat gs = l /\
   Forall (fun g => g <> []) gs /\
-  Forall (fun g => sum g <= 256) gs /\
-  adjacent (fun g h => 256 < sum g + hd 0 h) gs.
+  Forall (fun g => total g <= 256) gs /\
+  adjacent (fun g h => 256 < total g + hd 0 h) gs.
 
 (* sizes a Solidity member type can have *)
 Definition size_ok (s : N) : Prop := 0 < s <= 256.
 
 (* The layout computed from left to right (executable; proofs/SlotProof.v shows that it
    satisfies `layout`, so the declarative rule always has a solution, and that `layout`
-   determines the number of groups). `cur` is the group being filled, `used` its sum. *)
+   determines the number of groups). `cur` is the group being filled, `used` its total. *)
 Fixpoint fill (cur : list N) (used : N) (l : list N) : list (list N) :=
   match l with
   | [] => match cur with [] => [] | _ => [cur] end
